@@ -49,7 +49,7 @@ func (s *Store) AuthorizeClientIDSecret(_ context.Context, clientID, clientSecre
 	if !ok {
 		return errNoClient
 	}
-	if c.Auth != oidc.AuthMethodBasic && c.Auth != oidc.AuthMethodPost {
+	if !s.SecretCompareOnly && c.Auth != oidc.AuthMethodBasic && c.Auth != oidc.AuthMethodPost {
 		return errors.New("client does not authenticate with a secret")
 	}
 	if c.Secret != clientSecret {
